@@ -92,6 +92,13 @@ func overlayFor(u *Unit, tmp string) (map[string]string, error) {
 		real := filepath.Join(verifDir, "harness", f)
 		ov[filepath.Join(dir, "zz_verif_"+strings.ReplaceAll(f, "/", "_"))] = real
 	}
+	if u.GenDocs {
+		gp, _, err := genDocHarness(tmp, u.PkgName)
+		if err != nil {
+			return nil, err
+		}
+		ov[filepath.Join(dir, "zz_verif_docs_gen.go")] = gp
+	}
 	return ov, nil
 }
 
